@@ -64,6 +64,7 @@ type FnCtx struct {
 	closures  map[string]*closureRec
 	initGhosts map[string]*Term
 	errGlobals []string
+	unrollTop  bool
 }
 
 // ghostInit returns the initial (function entry) value of ghost variable name.
@@ -266,7 +267,14 @@ func (fc *FnCtx) collectTypeFacts(st *State, v Val, t types.Type, fs *[]*Term) {
 				*fs = append(*fs, Implies(Ne(PObj(v.T), IntLit(0)), Eq(PSlot(v.T), IntLit(fc.eng.ti.BaseSlot(pt.Elem())))))
 			}
 		case SSlice:
-			*fs = append(*fs, Le(IntLit(0), SArr(v.T)), Lt(SArr(v.T), st.next), Le(IntLit(0), SOff(v.T)),
+			offOK := []*Term{Le(IntLit(0), SOff(v.T))}
+			if sl, ok := t.Underlying().(*types.Slice); ok {
+				w := fc.eng.ti.LayoutOf(sl.Elem()).Width
+				for _, r := range fc.eng.ti.ArrayFieldRanges(sl.Elem()) {
+					offOK = append(offOK, And(Le(IntLit(r[0]), SOff(v.T)), Le(Add(SOff(v.T), Mul(SCap(v.T), IntLit(w))), IntLit(r[1]))))
+				}
+			}
+			*fs = append(*fs, Le(IntLit(0), SArr(v.T)), Lt(SArr(v.T), st.next), Or(offOK...),
 				Le(IntLit(0), SLen(v.T)), Le(SLen(v.T), SCap(v.T)), Le(SCap(v.T), maxAlloc),
 				Le(SOff(v.T), maxAlloc),
 				Implies(Eq(SArr(v.T), IntLit(0)), And(Eq(SCap(v.T), IntLit(0)), Eq(SOff(v.T), IntLit(0)))))
